@@ -22,7 +22,7 @@ type Case struct {
 	Mode      string `json:"delivery"` // inorder | cascade
 	Block     int    `json:"crash_while_applying_block_index"`
 	K         []int  `json:"crash_after_writes"`
-	Redeliv   string `json:"redelivery"` // rest | all | shuffled
+	Redeliv   string `json:"redelivery"` // rest | all | shuffled | p2p (the P2P stores held everything before the crash already; only a tick follows)
 	OrderSeed int64  `json:"order_seed"`
 }
 
@@ -31,7 +31,16 @@ func (c Case) key() string {
 }
 
 func buildSpec(shape, tag string) world.ChainSpec {
+	// one chain in three starts above height 1 (a full node of a chain whose genesis names a later initial height)
 	spec := world.ChainSpec{Initial: 1}
+	if t := 0; len(tag) > 0 {
+		for _, ch := range tag {
+			t = t*31 + int(ch)
+		}
+		if t%3 == 0 {
+			spec.Initial = 5
+		}
+	}
 	for i, c := range shape {
 		if c == 'e' {
 			spec.Blocks = append(spec.Blocks, nil)
@@ -91,6 +100,14 @@ func runCase(r *vk.Run, p *world.Produced, c Case) []bool {
 		r.Violation(clause, detail, wit())
 	}
 	n := len(p.Heights)
+	if c.Redeliv == "p2p" {
+		for _, k := range []string{"p2p-h+", "p2p-d+"} {
+			if err := f.Do(world.Action{Kind: k, I: n - 1}); err != nil {
+				fail("delivery", "filling the P2P stores failed: "+err.Error())
+				return nil
+			}
+		}
+	}
 	// stage 0: deliver up to the block under test, crash while applying it
 	next := 0 // next block index to deliver in order
 	stageDeliver := func(stage int) bool {
@@ -154,7 +171,7 @@ func runCase(r *vk.Run, p *world.Produced, c Case) []bool {
 		// after a crash the in-memory caches are gone: what was delivered but not applied must come again
 		h, _ := f.N.Store.Height(ctx)
 		for i := range f.GotH {
-			if p.Heights[i] > h {
+			if p.Heights[i] > h && c.Redeliv != "p2p" { // (what sits in the P2P stores survives the crash)
 				f.GotH[i], f.GotD[i] = false, false
 			}
 		}
@@ -179,11 +196,17 @@ func runCase(r *vk.Run, p *world.Produced, c Case) []bool {
 	if c.Redeliv == "rest" {
 		from = next
 	}
-	for i := from; i < n; i++ {
+	for i := from; i < n && c.Redeliv != "p2p"; i++ {
 		acts = append(acts, world.Action{Kind: "ch-h", I: i})
 		if len(p.Txs[i]) > 0 {
 			acts = append(acts, world.Action{Kind: "ch-d", I: i})
 		}
+	}
+	if c.Redeliv == "p2p" {
+		// nothing is delivered again: the node's P2P stores (which survive the crash) have held the whole chain since
+		// before the crash; the store loops of the restarted node must pick up from what the block store has
+		acts = append(acts, world.Action{Kind: "p2p-tick"})
+		r.Hit("resync-from-p2p-stores")
 	}
 	if c.Redeliv == "shuffled" {
 		rng.Shuffle(len(acts), func(a, b int) { acts[a], acts[b] = acts[b], acts[a] })
@@ -205,7 +228,12 @@ func runCase(r *vk.Run, p *world.Produced, c Case) []bool {
 			return crashed
 		}
 	}
-	// the DA layer holds the complete chain: the DA-included height must reach the tip
+	// everything has been delivered again: the node must be at the tip before the DA layer offers a second way
+	if _, probs := monitors.CheckFullNode(ctx, f, prev, true, r.Hit); len(probs) > 0 {
+		fail(probs[0].Clause, fmt.Sprintf("after restart and complete redelivery (%s): %s", c.Redeliv, probs[0]))
+		return crashed
+	}
+	// the DA layer holds the complete chain as well
 	var items []world.Item
 	for i := 0; i < n; i++ {
 		items = append(items, world.Item{I: i})
@@ -276,7 +304,7 @@ func Run(r *vk.Run) {
 	for si, shape := range shapes {
 		p, err := world.ProduceChain(ctx, buildSpec(shape, fmt.Sprintf("s%d", si)), keys)
 		if err != nil {
-			r.Violation("producer", err.Error(), nil)
+			r.Inconclusive("the aggregator producing the reference chain failed (not this property's business): " + err.Error())
 			return
 		}
 		for _, mode := range []string{"inorder", "cascade"} {
@@ -285,7 +313,7 @@ func Run(r *vk.Run) {
 				blocks = 1
 			}
 			for b := 0; b < blocks; b++ {
-				for _, red := range []string{"rest", "all", "shuffled"} {
+				for _, red := range []string{"rest", "all", "shuffled", "p2p"} {
 					tuples = append(tuples, tuple{p, shape, mode, b, red})
 				}
 			}
